@@ -54,10 +54,16 @@ Definition judge_c11 (g : cfg) (u : unit) (o : obs) : list N * unit :=
     if negb ms && negb (match sends (ob_evs o) with [] => true | _ => false end) then ([1; k_type p], u)   (* passed on although not allowed *)
     (* the storing exception only covers the connection STATE: a packet of the wrong protocol version
        or of a kind the role may not originate is refused even when it could be stored *)
-    else if negb ms && negb (storable_kind p && c_need_store pre
-                             && version_eqb (c_version pre) (k_ver p) && role_may_originate (g_role g) (k_ver p) (k_type p)) then
-      (* refused: only errors (+ release of the packet's id), state as if the call had not been made *)
-      if match errors (ob_evs o) with [] => true | _ => false end then ([2; k_type p], u)
+    else if negb ms then
+      let excepted := storable_kind p && c_need_store pre
+                      (* a PUBLISH is only kept for later while a connection is being made or offline publishing is on *)
+                      && (negb (k_type p =? T_PUBLISH) || negb (status_eqb (c_status pre) Disconnected) || c_offline pre)
+                      && version_eqb (c_version pre) (k_ver p) && role_may_originate (g_role g) (k_ver p) (k_type p) in
+      if match errors (ob_evs o) with [] => true | _ => false end then
+        (* accepted without a send: only the storing exception allows that *)
+        (if excepted then ([], u) else ([2; k_type p], u))
+      (* refused (whether or not it could have been stored): only errors (+ release of the packet's id),
+         state as if the call had not been made *)
       else if existsb is_notify (ob_evs o) || existsb is_close (ob_evs o) then ([3; k_type p], u)
       else if negb (nlist_eqb (proj_state NON_PID_FIELDS pre) (proj_state NON_PID_FIELDS (ob_post o))) then ([4; k_type p], u)
       else
